@@ -1,6 +1,7 @@
 package main
 
 import (
+	"errors"
 	"context"
 	"fmt"
 	"time"
@@ -93,6 +94,13 @@ func init() {
 					if err == nil && el < W-15*time.Millisecond {
 						verdict = "EARLY(acquired although its context ended first)"
 						bad++
+					} else if errors.Is(err, ratelimiter.ErrExceeded) {
+						// told "refused": then the limiter must be exactly as if the request had never been made - the next permit
+						// is the one that becomes usable one interval / period after the first (at most W away), not the one after
+						if w := l.ReservePermit(); w > W+5*time.Millisecond {
+							verdict = fmt.Sprintf("REFUSED-BUT-CONSUMED(next permit %v away, at most %v if the refusal had no effect)", w, W)
+							bad++
+						}
 					}
 					fmt.Printf("blocking %s/%s-ctx-%s n=1 min_expected_ns=%d elapsed_ns=%d %s\n", kind, pname, how, int64(W), int64(el), verdict)
 				}
